@@ -74,7 +74,7 @@ func init() {
 func init() {
 	propMeta["C04"] = Meta{
 		Level: "fault_enumeration",
-		Rule: "The fault space is the finite set of cells (protocol scenario in {session setup, Gennaro, Canetti, Lindell22/BIP-340, DKLs23 x2, agree-on-random, redistribution with/without anchor and to a disjoint set of newcomers, Lindell17 signing x2, Lindell17 DKG (3-party variant thorough only), Boldyreva x2}, corrupt party position, message type, recipient for unicasts, leaf of the CBOR encoding at normalised path (first and last instance of repeated positions), operator in {bit flip low/high, replace by the value at the same position of another sender's / the parallel session's message, swap two leaves (two instances of a repeated position, or two sibling fields of the same kind), increment, truncate, extend, drop, replay of another sender's / the parallel session's / another recipient's whole message}). Cells are derived from the recorded messages of an honest inventory run with the same seed; each evaluation re-runs the scenario (real runners, real echo broadcast, a parallel untouched session) with exactly one cell applied on the corrupt party's outgoing link, a broadcast being altered identically in all copies. The quick tier visits every cell of the cheap scenarios (agree-on-random, redistribution x3, Lindell17 signing, Boldyreva) and an evenly spread subset of the others, the thorough tier every cell (scenarios whose single run costs tens of seconds use a reduced operator set). Non-trivial = the tamper changed the bytes on the wire. Distinct = distinct cell labels.",
+		Rule: "The fault space is the finite set of cells (protocol scenario in {session setup, Gennaro, Canetti, Lindell22/BIP-340, DKLs23 x2, agree-on-random, redistribution with/without anchor and to a disjoint set of newcomers, Lindell17 signing x2, Lindell17 DKG (3-party variant thorough only), Boldyreva x2}, corrupt party position, message type, recipient for unicasts, leaf of the CBOR encoding at normalised path (first and last instance of repeated positions), operator in {bit flip low/high, replace by the value at the same position of another sender's / the parallel session's message, swap two leaves (two instances of a repeated position, or two sibling fields of the same kind), increment, truncate, extend, drop, replay of another sender's / the parallel session's / another recipient's whole message, replay of the message the corrupt party itself would have sent with other coins, with one single draw changed, or for another input}). Cells are derived from the recorded messages of an honest inventory run with the same seed; each evaluation re-runs the scenario (real runners, real echo broadcast, a parallel untouched session) with exactly one cell applied on the corrupt party's outgoing link, a broadcast being altered identically in all copies. The quick tier visits every cell of the cheap scenarios (agree-on-random, redistribution x3, Lindell17 signing, Boldyreva) and an evenly spread subset of the others, the thorough tier every cell (scenarios whose single run costs tens of seconds use a reduced operator set). Non-trivial = the tamper changed the bytes on the wire. Distinct = distinct cell labels.",
 		Assumptions: []string{
 			"binding table: every leaf is treated as bound unless listed as free with a written justification (session round-1 commitment key); operators that only append surplus data are accepted when every party ends with exactly the outputs of the unaltered run (decoding strictness is C12's subject)",
 			"the corrupt party runs honest code; its deviation is applied on the wire, so the deviating party's own later state is consistent with the untampered message",
@@ -95,7 +95,7 @@ func init() {
 		Assumptions: []string{"strict ping-pong protocols: no schedule to vary, so the simulated faults are wire alterations only", "alterations of messages that do not feed the named consistency checks are judged for safety only (no panic); vacuous alterations (decode to the identical message) are not required to be rejected"},
 		Real: []string{"pkg/ot/base/ecbbot, pkg/ot/base/vsot, pkg/ot/extension/softspoken", "pkg/mpc/rvole/bbot, pkg/mpc/rvole/softspoken", "pkg/mpc/session participant (round-by-round)", "pkg/base/serde"},
 		Stub: []string{"transport (lock-step hop: encode, alter, decode)", "random sources (sim.Rand)", "orchestrator (harness)"},
-		ExpectedProbes: []string{"honest_completed", "alteration_rejected_by_other_side", "choices_all-zero", "choices_all-one", "choices_alternating", "choices_random", "op_flip", "op_set", "op_swapleaf", "safety_only_alteration"},
+		ExpectedProbes: []string{"honest_completed", "alteration_rejected_by_other_side", "choices_all-zero", "choices_all-one", "choices_alternating", "choices_random", "op_flip", "op_set", "op_swapleaf", "safety_only_alteration", "rejected_call_then_retry"},
 		QuickBudgetS: 240, ThoroughBudgetS: 1500,
 	}
 }
